@@ -102,6 +102,10 @@ def render_header(r, kw, name, parts, ret, indent):
     return one
 
 
+PROSE_TYPES = ("list of int", "sequence of str", "int or None", "``int``", "array-like", "dict, optional", "str, default 'x'",
+               "callable -> bool", "{'a', 'b'} or None", "tuple of (int, str)", "file-like object", "int > 0")
+
+
 def gen_docstring(r, params, ret, indent, style=None, quote='"""'):
     style = style or r.choice(STYLES + ("none", "plain", "plain", "empty"))
     if style == "none":
@@ -116,8 +120,12 @@ def gen_docstring(r, params, ret, indent, style=None, quote='"""'):
     documented = [p for p in params if p[3] in ("pos", "kwonly") and r.random() < 0.8]
     with_types = r.random() < 0.6
     dps = []
+    # (a documented type is prose as often as it is an expression: "list of int", "int, optional", "array-like")
+    prose_types = r.random() < 0.12
     for nm, typ, d, kind in documented:
         t = typ if (with_types and typ) else (r.choice(("int", "str", "bool")) if with_types and r.random() < 0.3 else None)
+        if prose_types and with_types and not typ and r.random() < 0.6:
+            t = r.choice(PROSE_TYPES)
         dps.append((nm, t, irgen.rand_doc(r, stop=False), Ellipsis))
     rt = None
     if ret and ret != "None" and r.random() < 0.8:
@@ -297,3 +305,24 @@ def _gen_module(r, style=None, n_items=None, prelude=True):
     if r.random() < 0.1:
         src = src.rstrip("\n")  # no trailing newline
     return src
+
+
+def gen_prose_typed_module(r):
+    """plain top-level functions whose docstrings give types as people write them ("list of int", "str or None") for
+    parameters / results the signature does not annotate"""
+    out = []
+    for k in range(r.randint(1, 3)):
+        names = r.sample(irgen.NAMES[:20], r.randint(1, 4))
+        sig, dps = [], []
+        seen_default = False
+        for nm in names:
+            d = r.choice(("1", "'z'", "None", "2.5") if seen_default else (None, None, "1", "'z'", "None", "2.5"))
+            seen_default = d is not None
+            sig.append(nm if d is None else "%s=%s" % (nm, d))
+            t = r.choice(PROSE_TYPES) if r.random() < 0.6 else r.choice(("int", "str", "List[int]", None))
+            dps.append((nm, t, irgen.rand_doc(r, stop=False), Ellipsis))
+        rt = (r.choice(PROSE_TYPES + ("str",)), irgen.rand_doc(r, stop=False)) if r.random() < 0.7 else None
+        text, _ = docgen.compose(r, r.choice(STYLES), indent=1, params=dps, returns=rt, types=True, with_footer=False,
+                                 paragraphs=1)
+        out.append('def fn_%d(%s):\n    """%s"""\n    return %s\n' % (k, ", ".join(sig), text, r.choice(("None", names[0], "[%s]" % names[0]))))
+    return "\n\n".join(out)
